@@ -1041,8 +1041,12 @@ class ParserField:
                     )
                     return unprovided
 
-            discriminator = value.get(self.discriminator)
-            if discriminator in self.discriminator_map:
+            try:
+                discriminator = value.get(self.discriminator)
+                matched = discriminator in self.discriminator_map
+            except Exception:  # noqa: an un-hashable discriminator value (or a mapping that fails to answer) matches nothing
+                discriminator, matched = None, False
+            if matched:
                 type = self.discriminator_map[discriminator]
                 # directly assign type instead parse it in a Logical context
             else:
